@@ -38,6 +38,9 @@ package stdlibspec
 //@   reveal satsub
 //@ lemma satsub-mono: forall x1 time.Duration, z1 time.Duration, x2 time.Duration, z2 time.Duration :: x1 <= x2 && z2 <= z1 ==> satsub(x1, z1) <= satsub(x2, z2)
 //@   reveal satsub
+// bridge from Go's wrapping arithmetic to saturating subtraction (used for the stale-while-revalidate window)
+//@ lemma wrap-window: forall av time.Duration, since time.Duration, ul time.Duration, w time.Duration :: av >= 0 && ul >= 0 && since >= 0 && (av + since) - ul >= 0 && (av + since) - ul < w ==> satsub(av, ul) < w
+//@   reveal satsub
 //@ spec const maxI64 = 9223372036854775807
 //@ spec const minI64 = -9223372036854775808
 //@ spec const sec = 1000000000
@@ -186,8 +189,10 @@ package stdlibspec
 //@ extern errors.Join(errs)
 //@   pure
 //@   ensures (exists i int :: 0 <= i && i < len(errs) && errs[i] != nil) ==> result != nil
-//@ extern errors.Is
+//@   ensures len(errs) > 0 && errs[0] == driver.ErrNotExist ==> notExist(result)
+//@ extern errors.Is(err, target)
 //@   pure
+//@   ensures result == errIs(err, target)
 //@ extern errors.New
 //@   pure
 //@   ensures result != nil
@@ -348,3 +353,94 @@ package stdlibspec
 //@   requires b != nil
 //@   assigns sbc[b]
 //@   ensures sbc[b] == ""
+
+// ---------------------------------------------------------------------------
+// sync.RWMutex: ghost lockHeld[m] (0 = free, 1 = read-locked by this goroutine, 2 = write-locked)
+//@ ghost heap lockHeld *sync.RWMutex int
+//@ extern (*sync.RWMutex).Lock(m)
+//@   requires m != nil && lockHeld[m] == 0
+//@   assigns lockHeld[m]
+//@   ensures lockHeld[m] == 2
+//@ extern (*sync.RWMutex).Unlock(m)
+//@   requires m != nil && lockHeld[m] == 2
+//@   assigns lockHeld[m]
+//@   ensures lockHeld[m] == 0
+//@ extern (*sync.RWMutex).RLock(m)
+//@   requires m != nil && lockHeld[m] == 0
+//@   assigns lockHeld[m]
+//@   ensures lockHeld[m] == 1
+//@ extern (*sync.RWMutex).RUnlock(m)
+//@   requires m != nil && lockHeld[m] == 1
+//@   assigns lockHeld[m]
+//@   ensures lockHeld[m] == 0
+// errors.Is(err, driver.ErrNotExist)
+//@ spec func notExist(err error) bool
+
+// ---------------------------------------------------------------------------
+// ghost file system under one *os.Root (C14, C15, C17). Regular files only: fsHas[name],
+// fsData[name] (content as a byte string). Assumed: operations on an absent file fail with
+// an error satisfying errors.Is(err, os.ErrNotExist); a failed Create leaves the file as
+// it was; a successful Create truncates; Write appends what it was given when it reports
+// no error and an arbitrary prefix of it otherwise; ReadAll of a freshly opened file
+// returns its whole content; MkdirAll, Chtimes, Sync and Close do not change file contents.
+//@ ghost heap fsHas string bool
+//@ ghost heap fsData string string
+//@ spec func fileNameOf(f *os.File) string
+//@ spec func errIs(err error, target error) bool
+//@ spec func strOf(a Arr[int,byte], off int, n int) string
+//@ spec func bytesOf(b []byte) string = strOf(elemsArr(b), sliceOff(b), len(b))
+//@ axiom empty-concat: forall a Arr[int,byte], off int, n int :: "" + strOf(a, off, n) == strOf(a, off, n)
+
+//@ extern (*os.Root).Open(r, name)
+//@   pure
+//@   ensures result1 == nil ==> result0 != nil && fileNameOf(result0) == name && fsHas[name]
+//@   ensures result1 != nil ==> result0 == nil
+//@   ensures !fsHas[name] ==> result1 != nil && errIs(result1, os.ErrNotExist)
+//@ extern (*os.Root).Create(r, name)
+//@   assigns fsHas[name], fsData[name]
+//@   ensures result1 == nil ==> result0 != nil && fileNameOf(result0) == name && fsHas[name] && fsData[name] == ""
+//@   ensures result1 != nil ==> result0 == nil && fsHas[name] == old(fsHas[name]) && fsData[name] == old(fsData[name])
+//@ extern (*os.Root).Remove(r, name)
+//@   assigns fsHas[name]
+//@   ensures result == nil ==> old(fsHas[name]) && !fsHas[name]
+//@   ensures result != nil ==> fsHas[name] == old(fsHas[name])
+//@   ensures !old(fsHas[name]) ==> result != nil && errIs(result, os.ErrNotExist)
+//@ extern (*os.Root).MkdirAll
+//@   pure
+//@ extern (*os.Root).Chtimes
+//@   pure
+//@ extern (*os.Root).Name
+//@   pure
+//@ extern (*os.File).Write(f, b)
+//@   requires f != nil
+//@   assigns fsData[fileNameOf(f)]
+//@   ensures result1 == nil ==> fsData[fileNameOf(f)] == old(fsData[fileNameOf(f)]) + bytesOf(b)
+//@ extern (*os.File).Sync
+//@   pure
+//@ extern (*os.File).Close
+//@   pure
+//@ extern io.ReadAll(r)
+//@   pure
+//@   ensures result1 == nil && typeis(r, *os.File) ==> bytesOf(result0) == fsData[fileNameOf(as(r, *os.File))]
+//@ extern path/filepath.Dir
+//@   pure
+
+// ---------------------------------------------------------------------------
+// encoding/base64 (URL alphabet, no padding) and path/filepath. b64Text(s): s is made of
+// base64url characters only - in particular it contains neither '/' (47) nor '~' (126).
+// A path is a sequence of components: pathLen/pathPart. Assumed: Join of non-empty
+// components that contain no separator yields exactly those components, and a separator-free
+// string is a one-component path.
+//@ spec func b64Text(s string) bool
+//@ spec func pathLen(p string) int
+//@ spec func pathPart(p string, j int) string
+//@ axiom b64-alphabet: forall s string, i int :: b64Text(s) && 0 <= i && i < len(s) ==> s[i] != 126 && s[i] != 47
+//@ axiom b64-one-component: forall s string :: b64Text(s) ==> pathLen(s) == 1 && pathPart(s, 0) == s
+//@ extern (*encoding/base64.Encoding).EncodeToString(enc, src)
+//@   pure
+//@   ensures b64Text(result)
+//@ extern path/filepath.Join(elem)
+//@   pure
+//@   requires forall j int :: 0 <= j && j < len(elem) ==> len(elem[j]) > 0
+//@   ensures pathLen(result) == len(elem)
+//@   ensures forall j int :: 0 <= j && j < len(elem) ==> pathPart(result, j) == elem[j]
